@@ -321,9 +321,9 @@ func witnesses() []*witness {
 	names := &witness{name: "names", why: "terminal names that are not Go identifiers: operators, quotes, backslashes, keywords",
 		trans: []wTrans{{0, []wEdge{{[]rune{'a'}, 1}, {[]rune{'b'}, 2}, {[]rune{'c'}, 3}, {[]rune{'d'}, 4}}}},
 		finals: []wFinal{{"+", []int{1}}, {"a\"b\\c", []int{2}}, {"func", []int{3}}, {"{{", []int{4}}}}
-	emptyStates := &witness{name: "emptystates", why: "a definition that owns no accepting state",
-		trans:  []wTrans{{0, []wEdge{{[]rune{'a'}, 1}}}},
-		finals: []wFinal{{"ID", []int{1}}, {"SHADOWED", nil}}}
+	emptyStates := &witness{name: "emptystates", why: "definitions that own no accepting state, before, between and after definitions that do",
+		trans:  []wTrans{{0, []wEdge{{[]rune{'a'}, 1}, {[]rune{'0'}, 2}}}},
+		finals: []wFinal{{"FIRSTSHADOWED", nil}, {"ID", []int{1}}, {"SHADOWED", nil}, {"NUM", []int{2}}, {"LASTSHADOWED", nil}}}
 	empty := &witness{name: "empty", why: "no transitions and no definitions"}
 	return []*witness{simple, runes, names, emptyStates, empty}
 }
